@@ -335,9 +335,9 @@ func (c35) Gen(seed int64, tier string, emit func(any)) {
 		}
 	}
 	if tier == "thorough" { // long inputs
-		for i := 0; i < 30; i++ {
+		for i := 0; i < 8; i++ {
 			var b []byte
-			for len(b) < 2000+r.Intn(3000) {
+			for len(b) < 1500+r.Intn(1500) {
 				b = append(b, c35RandBytes(r)...)
 			}
 			for _, k := range c35Kinds {
